@@ -112,6 +112,9 @@ def make_raiser(case, secret):
         elif cls == 'notfound': exc = sub(ResourceNotFoundError)('thing')
         elif cls == 'notallowed': exc = sub(RequestNotAllowed)('nope')
         elif cls == 'auth': exc = sub(InvalidCredentialsError)()
+        elif cls == 'schemaval':
+            from spyne.protocol.xml import SchemaValidationError
+            exc = sub(SchemaValidationError)("Element 'n': 'abc' is not a valid value of the atomic type 'xs:integer'.")
         else:
             code = pool.code_str(f['code'])
             base = Fault
@@ -336,6 +339,7 @@ def loopback(ctx, cases, worlds, secret):
             got = ('clientcrash:' + type(e).__name__, None, None)
         n += 1
         exp_code = pool.code_str(c['f']['code']) if c['f']['kind'] == 'fault' else 'Server'
+        exp_code = NOT_XML.sub(u'\ufffd', exp_code)          # (the XML family cannot carry control characters: U+FFFD in their place)
         exp_msg = box['msg'] if c['f']['kind'] == 'fault' else 'Internal Error'
         if c['f']['kind'] == 'fault' and c['f']['msg'] == 'ctl' and exp_msg is not None:
             exp_msg = NOT_XML.sub(u'\ufffd', exp_msg)          # (the XML family cannot carry these characters)
